@@ -136,7 +136,7 @@ def run(tier, seed):
                     "write_datagrams(start,stop,cmd)": info["on_the_fly"],
                     "expected_counters": {str(k): v for k, v in info["counters"].items()}})
         npaths += group_jobs(label, info, jobs, texts, rep)
-    rep.extra["paths"] = npaths
+    rep.extra["program_paths"] = npaths
     rep.extra["programs"] = len(infos)
     merged = parallel.aggregate(parallel.discharge(jobs))
     rep.extra["vc_queries"] = len(jobs)
